@@ -473,9 +473,9 @@ func runC10(c *Ctx) {
 				l := a.rangeOfTerm(Term{Len: true, V: call.Call.Args[1]}, in, 3)
 				if l.lo == 20 && l.hi == 20 {
 					okSizes++ // header
-				} else if sl, isS := call.Call.Args[1].(*ssa.Slice); isS && sl.High == nil {
-					if k, isK := constInt(sl.Low); isK && k == 20 {
-						okSizes++ // raw[20:]
+				} else if sl, isS := call.Call.Args[1].(*ssa.Slice); isS && sl.Low != nil {
+					if k, isK := constInt(sl.Low); isK && k == 20 && (sl.High == nil || declaredSTUNSize(sl.High)) {
+						okSizes++ // raw[20:], or buf[20:size] with size = 20 + the header's declared length
 					}
 				}
 			})
@@ -647,4 +647,32 @@ func (w *World) errGlobals(fn *ssa.Function, idx int, depth int) (map[string]boo
 		}
 	}
 	return out, true
+}
+
+// declaredSTUNSize: v is int(binary.BigEndian.Uint16(hdr[2:4])) + 20 — the size of a STUN
+// message as its header declares it.
+func declaredSTUNSize(v ssa.Value) bool {
+	bo, ok := stripIntConv(v).(*ssa.BinOp)
+	if !ok || bo.Op != token.ADD {
+		return false
+	}
+	for _, pair := range [][2]ssa.Value{{bo.X, bo.Y}, {bo.Y, bo.X}} {
+		if k, isK := constInt(pair[1]); !isK || k != 20 {
+			continue
+		}
+		call, isC := stripIntConv(pair[0]).(*ssa.Call)
+		if !isC || call.Call.StaticCallee() == nil || call.Call.StaticCallee().Name() != "Uint16" || len(call.Call.Args) == 0 {
+			continue
+		}
+		sl, isS := call.Call.Args[len(call.Call.Args)-1].(*ssa.Slice)
+		if !isS {
+			continue
+		}
+		lo, okL := constInt(sl.Low)
+		hi, okH := constInt(sl.High)
+		if okL && okH && lo == 2 && hi == 4 {
+			return true
+		}
+	}
+	return false
 }
